@@ -24,14 +24,49 @@ def classify(prop, v, **ctx):
     v.setdefault("finding", None)
     if v.get("finding"):
         return v["finding"]
-    for fn in MATCHERS.get(prop, []) + [history_dependent_rounding_fold]:
+    generic = (history_dependent_rounding_fold, inconsistent_assumptions_after_history)
+    for fn in MATCHERS.get(prop, []) + list(generic):
         try:
-            fid = fn(v, prop=prop, **ctx) if fn is history_dependent_rounding_fold else fn(v, **ctx)
+            fid = fn(v, prop=prop, **ctx) if fn in generic else fn(v, **ctx)
         except Exception:
             fid = None
         if fid:
             v["finding"] = fid
             return fid
+    return None
+
+
+def fresh_child(job, timeout=600):
+    import json
+    import subprocess
+
+    from ..core import env
+
+    e = env.child_env("0")
+    e["VERIF_REPO"] = env.REPO
+    p = subprocess.run(["/venv/bin/python", "-m", "vf.exec.fresh"], input=json.dumps(job), capture_output=True, text=True, env=e, cwd=env.VERIF, timeout=timeout)
+    for ln in p.stdout.splitlines():
+        if ln.startswith("RESULT "):
+            return json.loads(ln[7:])
+    return None
+
+
+def inconsistent_assumptions_after_history(v, prop="", text="", **kw):
+    """sympy raises InconsistentAssumptions from its assumption cache in a long-lived process (same family as the
+    history-dependent floor fold).  Counterfactual: the same text handled by a FRESH interpreter does not raise."""
+    d = v.get("detail", {})
+    exc = d.get("exc") or ""
+    if "InconsistentAssumptions" not in exc or not text:
+        return None
+    if prop == "C20":
+        r = fresh_child({"text": text, "requests": [], "try_matrices": True})
+        if r and all(x == "ok" for x in r.get("matrices", {}).values()):
+            return f"{prop}-sympy-inconsistent-assumptions-after-history"
+        return None
+    be = d.get("backend") or "numpy"
+    r = fresh_child({"text": text, "requests": [{"key": "k", "backend": be if be in ("numpy", "jax", "c") else "numpy", "schemes": ["explicit_euler", "generalized_rush_larsen"]}]})
+    if r and not r.get("errors") and r.get("sha"):
+        return f"{prop}-sympy-inconsistent-assumptions-after-history"
     return None
 
 
@@ -193,6 +228,40 @@ def has_huge_int_literal(text):
     return False
 
 
+def int_arithmetic_exceeds_int64(code):
+    """Generated Python code holds an integer-only arithmetic subexpression (e.g. (-4503599627370497)*(-4503599627370497) + 1)
+    whose value does not fit int64: numpy then receives a Python int it cannot convert."""
+    import ast
+
+    try:
+        tree = ast.parse(code or "")
+    except SyntaxError:
+        return False
+
+    def value(n):
+        if isinstance(n, ast.Constant) and type(n.value) is int:
+            return n.value
+        if isinstance(n, ast.UnaryOp) and isinstance(n.op, (ast.USub, ast.UAdd)):
+            v = value(n.operand)
+            return None if v is None else (-v if isinstance(n.op, ast.USub) else v)
+        if isinstance(n, ast.BinOp) and isinstance(n.op, (ast.Add, ast.Sub, ast.Mult, ast.Pow)):
+            a, b = value(n.left), value(n.right)
+            if a is None or b is None:
+                return None
+            if isinstance(n.op, ast.Pow):
+                if b < 0 or b > 400 or abs(a) > 10**30:
+                    return None
+                return a**b
+            return a + b if isinstance(n.op, ast.Add) else a - b if isinstance(n.op, ast.Sub) else a * b
+        return None
+
+    for n in ast.walk(tree):
+        v = value(n)
+        if v is not None and abs(v) >= 2**63:
+            return True
+    return False
+
+
 def without_simplify_counterfactual(ode, recheck):
     """Regenerate the numpy module with sympy.simplify (as called from _print_Piecewise) replaced by the
     identity - in this harness process only - and re-run the case's comparison."""
@@ -235,7 +304,7 @@ def c01_matchers(v, text="", features=None, ode=None, ref=None, code=None, reche
     if kind in ("value", "rhs_raises") and ode is not None and ref is not None:
         if (kind == "value" or "name 'inf'" in exc or "name 'nan'" in exc) and folded_constant_out_of_range(ode, ref, names):
             return "C01-folded-constant-out-of-float-range"
-    if kind == "rhs_raises" and ("loop of ufunc does not support argument 0 of type int" in exc or "Python int too large to convert to C long" in exc) and (has_huge_int_literal(text) or has_huge_int_literal(code or "") or (ode is not None and ref is not None and huge_integer_atom(ode, ref, list(ref.assigns)))):
+    if kind == "rhs_raises" and ("loop of ufunc does not support argument 0 of type int" in exc or "Python int too large to convert to C long" in exc) and (has_huge_int_literal(text) or has_huge_int_literal(code or "") or int_arithmetic_exceeds_int64(code) or (ode is not None and ref is not None and huge_integer_atom(ode, ref, list(ref.assigns)))):
         return "C01-huge-int-literal-in-numpy-call"
     root = (d.get("root_cause") or {}).get("name") or d.get("name")
     if kind == "value" and ref is not None and root in ref.assigns and ode is not None:
@@ -280,7 +349,7 @@ def c03_matchers(v, text="", features=None, ode=None, ref=None, code=None, **kw)
         # the message itself shows that a Python int >= 2**63 reached jax; only integer literals of the generated code (or
         # Python's exact arithmetic between them, e.g. 100**16) can produce one - the inputs are float64 arrays
         return "C03-huge-int-literal"
-    if kind == "raises" and any(t in exc for t in HUGE_INT_TEXTS) and (has_huge_int_literal(text) or has_huge_int_literal(code or "") or (ode is not None and huge_integer_atom(ode, ref, list(ref.assigns)))):
+    if kind == "raises" and any(t in exc for t in HUGE_INT_TEXTS) and (has_huge_int_literal(text) or has_huge_int_literal(code or "") or int_arithmetic_exceeds_int64(code) or (ode is not None and huge_integer_atom(ode, ref, list(ref.assigns)))):
         return "C03-huge-int-literal"
     if kind == "raises" and ("name 'inf'" in exc or "name 'nan'" in exc) and code and re.search(r"(?<![\w.])(inf|nan)(?![\w.(])", code):
         # a bare inf/nan token in generated code can only come from printing a folded Float beyond float64's range
